@@ -151,6 +151,16 @@ def sortedFinal (s : Ctl) : Ctl :=
   { s with nodes := sortByKey (·.name) s.nodes, nss := sortByKey (·.name) s.nss, svcs := sortByKey Svc.key s.svcs,
            pods := sortByKey Pod.key s.pods, slices := sortByKey Slice.key s.slices }
 
+/-- the creates of a cold start: kinds in the given order, within a kind sorted by key - reversed when the order token
+    contains `rev` (the list order of an informer is not specified) -/
+def coldOpsOf (s : Ctl) (orderTok : String) : List Op :=
+  let f := sortedFinal s
+  let f := if (decList orderTok).contains "rev" then
+      { f with nodes := f.nodes.reverse, nss := f.nss.reverse, svcs := f.svcs.reverse, pods := f.pods.reverse,
+               slices := f.slices.reverse }
+    else f
+  finalOps f (parseOrder orderTok)
+
 /-- is the op a write / delete of a slice with the MCS service-name label?  Such slices exist at the API
     server but are invisible to the controller (`endpointSliceSelector`): the model has no object for them,
     the driver only remembers their keys so that their deletion is an applicable (no-effect) op. -/
@@ -170,7 +180,7 @@ def stepD0 (s : State) (toks : List String) : State × String :=
   | ["release"] => let s' := release s; (s', showState s'.c)
   | ["cold", order] =>
     let s' := release s
-    let cold := coldRun (finalOps (sortedFinal s'.c) (parseOrder order))
+    let cold := coldRun (coldOpsOf s'.c order)
     (s', "ordered=" ++ showView s'.c ++ " cold=" ++ showView cold.c)
   | _ =>
     match parseOp toks with
@@ -228,11 +238,18 @@ def podKeyOf (e : IEp) : String := e.ns ++ "/" ++ e.workload
 
 /-- the slice endpoint (of the final objects) an address of a host comes from; with duplicates across
     slices, one whose pod is known (it is the one that builds an endpoint) is preferred -/
-def sourceOf (final : Ctl) (host addr : String) (portName : String := "*") : Option Ep :=
+def sourceOf (final : Ctl) (host addr : String) (portName : String := "*") (podHint : String := "") : Option Ep :=
   -- sibling slices may have different port lists: the endpoint (address, port name) comes from a slice with that port
   let cands := (final.slices.filter (fun sl => sl.host = host ∧ !sl.fqdn ∧ sl.svc ≠ "" ∧
       (portName = "*" ∨ sl.ports.any (·.1 = portName)))).flatMap fun sl =>
     (sl.addrPairs.filter (·.2 = addr)).map (·.1)
+  -- first a candidate whose targetRef names the pod the endpoint was built from (namespace/workload - the pod name unless
+  -- an owner reference or the workload-name label renames it), then one whose pod is known
+  match cands.find? (fun ep => podHint ≠ "" && (match ep.target with
+      | some (tns, tn) => tns ++ "/" ++ tn == podHint
+      | none => false)) with
+  | some ep => some ep
+  | none =>
   match cands.find? (fun ep => match ep.target with
       | some (tns, tn) => (findPod final.pods tns tn).isSome
       | none => true) with
@@ -245,8 +262,9 @@ def untargeted (final : Ctl) (host addr : String) (portName : String := "*") : B
   | none => false
 
 /-- symptoms for one endpoint present on both sides with different content -/
-def diffSymptoms (host : String) (o c : IEp) : List Symptom :=
-  let pk := if o.workload ≠ "" then podKeyOf o else podKeyOf c
+def diffSymptoms (host : String) (o c : IEp) (src : Option String := none) : List Symptom :=
+  -- the pod of the endpoint: the targetRef of its source slice (the workload name need not be the pod name)
+  let pk := src.getD (if o.workload ≠ "" then podKeyOf o else podKeyOf c)
   let pk2 := podKeyOf c
   (if o.health ≠ c.health then [mkSy "health" host host pk pk2 o.addr] else []) ++
   (if o.locality ≠ c.locality then [mkSy "locality" host (if o.node ≠ "" then o.node else c.node) pk pk2 o.addr] else []) ++
@@ -271,14 +289,15 @@ def symptomsHost (final o c : Ctl) (host : String) : List Symptom :=
       | none => { cls := "missing", host := host, obj := e.addr, epAddr := e.addr }
     let x := extra.map fun e =>
       if untargeted final host e.addr e.portName then { cls := "untargeted", host := host, obj := e.addr, epAddr := e.addr } else
-      match sourceOf final host e.addr e.portName with
+      match sourceOf final host e.addr e.portName (podKeyOf e) with
       | some ep =>
         match ep.target with
         | some (tns, tn) => { cls := "extra", host := host, obj := tns ++ "/" ++ tn, epAddr := e.addr : Symptom }
         | none => { cls := "extra", host := host, obj := e.addr, epAddr := e.addr }
       | none => { cls := "extra-no-source", host := host, obj := e.addr, epAddr := e.addr }
     let d := both.flatMap fun p => if p.1 = p.2 then [] else
-      let cl := diffSymptoms host p.1 p.2
+      let src := (sourceOf final host p.1.addr p.1.portName (podKeyOf p.1)).bind fun ep => ep.target.map fun t => t.1 ++ "/" ++ t.2
+      let cl := diffSymptoms host p.1 p.2 src
       if untargeted final host p.1.addr p.1.portName then
         -- an endpoint without targetRef: its health is its own, everything else comes from the pod found by IP
         (cl.filter (·.cls == "health")) ++
@@ -346,9 +365,9 @@ def causesOf (c : Ctl) (op : Op) : List (String × String) :=
           [("labels-built-before-pod-label-change", key)] else []) ++
         -- an in-place change of node / service account replays the slices that refer to the pod (fix ab6ec60): no cause,
         -- unless a slice of ANOTHER namespace refers to it (only the pod's namespace is listed)
-        (if (o.sa ≠ v.sa ∨ o.node ≠ v.node) ∧
+        (if idChanged o v ∧
             c.slices.any (fun sl => sl.ns ≠ v.ns && sl.addrPairs.any fun ea => ea.1.target == some (v.ns, v.name)) then
-          [("pod-updated-after-slice-built", key)] else [])) ++
+          [("pod-of-another-namespace-updated-after-slice-built", key)] else [])) ++
       (if untargetedAt c v.ns v.ip then [("untargeted-endpoint-pod-lookup-stale", v.ip)] else []) ++
       (if o.ip ≠ v.ip ∧ untargetedAt c v.ns o.ip then [("untargeted-endpoint-pod-lookup-stale", o.ip)] else [])
   | .delPod ns name =>
@@ -451,9 +470,10 @@ def explains (final : Ctl) (ops : List Op) (sy : Symptom) (cause : Cause) : Bool
     (cl == "untargeted-endpoint-pod-lookup-stale" && sy.addr ≠ "" && ob == sy.addr)
   late && match sy.cls with
   | "health" => (cl == "health-built-before-service-known" && ob == sy.host) || stalePod
-  | "locality" => (cl == "locality-built-before-node-change" && ob == sy.obj) || stalePod
+  | "locality" => (cl == "locality-built-before-node-change" && ob == sy.obj) || stalePod ||
+      (cl == "pod-of-another-namespace-updated-after-slice-built" && (ob == sy.pod || ob == sy.pod2))
   | "labels" => (cl == "labels-built-before-pod-label-change" && (ob == sy.pod || ob == sy.pod2)) || stalePod
-  | "identity" => stalePod
+  | "identity" => stalePod || (cl == "pod-of-another-namespace-updated-after-slice-built" && (ob == sy.pod || ob == sy.pod2))
   | "extra" => cl == "endpoint-of-deleted-pod-kept" && ob == sy.obj
   | "missing" => cl == "waiting-address-differs-from-pod-ip" && ob == sy.obj
   | "accounts" => cl == "accounts-kept-after-endpoints-removed" && ob == sy.host
@@ -542,6 +562,13 @@ def resyncSoundB (c : Ctl) : Bool :=
   c.resync.all fun ak => ak.2.all fun k =>
     c.slices.any fun sl => sl.key == k && (parkedAddrs (visPods c.pods) sl).contains ak.1
 
+/-- `PodCacheOK` evaluated: podsByIP holds exactly the running, ready pods of the store by IP, ipByPods is the inverse -/
+def podCacheOKB (c : Ctl) : Bool :=
+  (c.byIP.all fun ik => ik.2.all fun k => c.pods.any fun p => p.key == k && p.ip == ik.1 && podOK p) &&
+  (c.pods.all fun p => !podOK p || setContains c.byIP p.ip p.key) &&
+  (c.ipBy.all fun ki => setContains c.byIP ki.2 ki.1) &&
+  (c.byIP.all fun ik => ik.2.all fun k => alookup k c.ipBy == some ik.1)
+
 /-- the hypotheses of `cold_start_inv` on the creates of a cold start -/
 def coldOK (objs : List Op) : Bool :=
   decide (ColdOps {} objs) && decide (ColdHyp (coldFold {} objs).1) && decide (SvcBeforeSlice (coldFold {} objs).2)
@@ -551,9 +578,9 @@ def stepClassify (cs : CState) (toks : List String) : CState × String :=
   | "case" :: _ => ({}, "-")
   | ["cold", order] =>
     let s' := release cs.s
-    let cold := coldRun (finalOps (sortedFinal s'.c) (parseOrder order))
+    let cold := coldRun (coldOpsOf s'.c order)
     let ops := cs.ops.reverse
-    let coldOps := finalOps (sortedFinal s'.c) (parseOrder order)
+    let coldOps := coldOpsOf s'.c order
     -- in the cold start every store is full before the first handler runs: what matters is whether the slices
     -- are handled before the Services are in servicesMap, resp. before the pods are in the pod cache
     let ord := parseOrder order
@@ -576,7 +603,7 @@ def stepClassify (cs : CState) (toks : List String) : CState × String :=
       boolTok (agreesWith cold.c (coldFold {} coldOps).1) ++
       " nodes=" ++ boolTok (decide (NodesUnique (coldFold {} coldOps).1)) ++
       " coldagree=" ++ boolTok (viewsAgree s'.c cold.c) ++
-      " leak=" ++ boolTok (!(resyncSoundB s'.c)) ++
+      " leak=" ++ boolTok (!(resyncSoundB s'.c)) ++ " pc=" ++ boolTok (podCacheOKB s'.c) ++
       " bad=" ++ firstBad {} [] [] 0 ops ++
       " ordered=" ++ enc (showView s'.c) ++ " cold=" ++ enc (showView cold.c))
   | _ =>
